@@ -460,7 +460,17 @@ def check_sus(prog, rep):
     if start != env_vn.env.get(off[0]):
         rep.violate("R3-sus", construct, "first pointer is %s, not the random offset" % start.show(), where(f, pc), off[0], start.show())
         good = False
-    lo, hi = [VN(prog, f, env={k2: v2 for k2, v2 in vn.env.items() if k2 != off[0]}).expr(x) for x in off[1].args[:2]]
+    # uniform(low, high): positional or by the keyword names both numpy generators use
+    ukw = {k.arg: k.value for k in off[1].keywords}
+    uargs = list(off[1].args[:2])
+    if len(uargs) < 1 and "low" in ukw:
+        uargs.append(ukw["low"])
+    if len(uargs) < 2 and "high" in ukw:
+        uargs.append(ukw["high"])
+    if len(uargs) != 2:
+        rep.unrec("R3-sus", construct, "bounds of the offset draw not found: %s" % dump(off[1])[:50])
+        return
+    lo, hi = [VN(prog, f, env={k2: v2 for k2, v2 in vn.env.items() if k2 != off[0]}).expr(x) for x in uargs]
     if not (lo.const_value() == 0 and hi == step_ref):
         rep.violate("R3-sus", construct, "offset is uniform on [%s, %s), not on [0, total/k)" % (lo.show(), hi.show()), where(f, off[1]), "uniform(0, %s)" % step_ref.show(),
                     "uniform(%s, %s)" % (lo.show(), hi.show()))
